@@ -124,7 +124,7 @@ def tlc_ok(res, what):
     problem (exit 2), never a verdict about the code."""
     out = res["out"]
     if res["rc"] != 0 or "Error:" in out or "is violated" in out or "Model checking completed" not in out:
-        tail = "\n".join(out.splitlines()[-40:])
+        tail = "\n".join(l[:300] for l in out.splitlines()[-40:])
         raise ToolError("TLC run '%s' was not clean (rc=%s):\n%s" % (what, res["rc"], tail))
 
 
